@@ -12,7 +12,7 @@ func init() {
 	register(&PropDoc{
 		ID:      "C04",
 		Modules: []string{"sdk"},
-		NotDecided: "truncate() (string algorithm over arbitrary bytes), the in-place de-duplication index arithmetic, exact dropped counts as numbers, " +
+		NotDecided: "truncate() beyond 'every kept character is counted' (byte-level cut positions, removal of invalid bytes), the in-place de-duplication index arithmetic, exact dropped counts as numbers, " +
 			"the full product of call sequences against a reference model.",
 		Fn: c04,
 	})
